@@ -74,7 +74,8 @@ def step (_ : Unit) (line : String) : Unit × String :=
             let okPost := validCoop ms n a
             let okPub := validCoop ms n b
             let key := if !wf then "coop-sticky-malformed"
-                       else if !okPre then (if dupSub then "sticky-duplicate-subscription" else "coop-sticky-plan")
+                       else if dupSub then "sticky-duplicate-subscription"
+                       else if !okPre then "coop-sticky-plan"
                        else if !okPost then "coop-sticky-adjusted" else "coop-sticky-public"
             s!"{pre} # {showPlan ids (adjust ms p)} # {pub} | {verdict (wf && okPre && okPost && okPub) key} | {nt}"
           | _ => s!"bad-impl | 0:coop-sticky-malformed | {nt}"
